@@ -156,14 +156,16 @@ func runC19(c *Ctx) {
 			for k, m := 0, 4+r.Intn(22); k < m; k++ {
 				e := k8sEvent{Kind: "apply", NS: pick(r, []string{cns, cns, cns, "other-ns"}), Name: pick(r, append(names, "unrelated"))}
 				switch x := r.Intn(12); {
-				case x < 6:
+				case x < 3:
 					e.Present, e.HasKey, e.Value = true, true, fmt.Sprintf("v%d-%s", k, e.Name)
+				case x < 6: // values recur: a Secret is set back to a value it had (also one it only had while it was being deleted)
+					e.Present, e.HasKey, e.Value = true, true, fmt.Sprintf("pool%d-%s", r.Intn(3), e.Name)
 				case x < 7:
 					e.Present, e.HasKey, e.Value = true, true, ""
 				case x < 8:
 					e.Present, e.HasKey = true, false
 				case x < 9:
-					e.Present, e.HasKey, e.Value, e.Deleting = true, true, fmt.Sprintf("dying%d", k), true
+					e.Present, e.HasKey, e.Value, e.Deleting = true, true, fmt.Sprintf("pool%d-%s", r.Intn(3), e.Name), true
 				case x < 10:
 					e.Present = false
 				default:
